@@ -56,6 +56,9 @@ type c09Case struct {
 	Dup      int        `json:"dup,omitempty"` // number of duplicated keys added to the slices to sort
 	Perms    int        `json:"perms"`         // number of random arrangements to sort
 	Seed     uint64     `json:"seed"`
+	// Inter: expected number of SortKeys calls made DURING the history (on
+	// random subsets of the keys seen so far); 0 = sort only at the end.
+	Inter int `json:"inter,omitempty"`
 }
 
 // ---------------------------------------------------------------------------
@@ -85,6 +88,9 @@ var c09NumTable = map[string]c09Num{
 	"+Inf": {0, math.Inf(1)}, "Inf": {0, math.Inf(1)}, "-Inf": {0, math.Inf(-1)},
 	"NaN": {c09NaN, 0}, "nan": {c09NaN, 0},
 	"": {c09NonNumber, 0}, "abc": {c09NonNumber, 0}, "x": {c09NonNumber, 0}, "foo": {c09NonNumber, 0}, "zed": {c09NonNumber, 0}, "Q": {c09NonNumber, 0},
+	// digit-free words with decimal points: no digit, so not a number under
+	// any reading, however fuzzy (added after a seeded change read them as 0)
+	".": {c09NonNumber, 0}, "..": {c09NonNumber, 0}, "file.go": {c09NonNumber, 0}, "a.b.c": {c09NonNumber, 0}, "v.": {c09NonNumber, 0},
 }
 
 var c09NumPool, c09NumPoolName []string // all spellings but ""; the name-safe ones (no '-')
@@ -465,6 +471,17 @@ func c09Check(c c09Case) *kit.Fail {
 	have := make([]bool, len(sim.distinct))
 	byKey := map[benchproc.Key]int{}
 	n := 0
+	type midSort struct {
+		after int
+		seq   []benchproc.Key
+	}
+	var mids []midSort
+	rrI := kit.NewRand(c.Seed, "c09-intersort", 0)
+	pSort := 0.0
+	if c.Inter > 0 {
+		pSort = float64(c.Inter) / float64(len(c.Stream))
+	}
+	nSub := 0
 	for ri := range c.Stream {
 		res := c09Build(&c.Stream[ri])
 		var ks []benchproc.Key
@@ -488,6 +505,65 @@ func c09Check(c c09Case) *kit.Fail {
 			byKey[k] = di
 			keys[di], have[di] = k, true
 		}
+		if pSort == 0 || !rrI.Chance(pSort) {
+			continue
+		}
+		// SortKeys in the middle of the history, on a random subset of the
+		// keys seen so far (twice, from two arrangements).
+		q := kit.Pick(rrI, []float64{0.3, 0.6, 1})
+		var sub []benchproc.Key
+		for di := range keys {
+			if have[di] && rrI.Chance(q) {
+				sub = append(sub, keys[di])
+			}
+		}
+		if len(sub) < 2 {
+			continue
+		}
+		if rrI.Chance(0.3) {
+			sub = append(sub, sub[rrI.Intn(len(sub))])
+		}
+		s1 := append([]benchproc.Key(nil), sub...)
+		s2 := append([]benchproc.Key(nil), sub...)
+		kit.Shuffle(rrI, s1)
+		kit.Shuffle(rrI, s2)
+		benchproc.SortKeys(s1)
+		benchproc.SortKeys(s2)
+		when := fmt.Sprintf("SortKeys during the history (after result %d of %d, %d of the keys seen so far)", ri+1, len(c.Stream), len(sub))
+		cnt := map[benchproc.Key]int{}
+		for _, k := range sub {
+			cnt[k]++
+		}
+		for _, k := range s1 {
+			cnt[k]--
+		}
+		for k, d := range cnt {
+			if d != 0 || len(s1) != len(sub) {
+				return kit.Failf("sort-not-permutation", "%q: %s: key %q occurs %d times fewer after sorting", text, when, k.String(), d)
+			}
+		}
+		for i := 0; i+1 < len(s1); i++ {
+			if s1[i+1].Less(s1[i]) {
+				return kit.Failf("sort-not-sorted", "%q: %s: position %d holds %q and position %d holds %q which is Less", text, when, i, s1[i].String(), i+1, s1[i+1].String())
+			}
+		}
+		for i := range s1 {
+			if s1[i] != s2[i] {
+				return kit.Failf("sort-arrangement-dependent", "%q: %s: two arrangements sort to different sequences at position %d: %q vs %q", text, when, i, s1[i].String(), s2[i].String())
+			}
+		}
+		mids = append(mids, midSort{ri + 1, s1})
+		kit.Count("c09.sorts_during_history", 1)
+		// evidence: a sort that follows an earlier sort and the birth of a
+		// .config sub-field in between
+		ns := 0
+		for _, f := range proj.Fields() {
+			ns += len(f.Sub)
+		}
+		if len(mids) > 1 && ns > nSub {
+			kit.Count("c09.sorts_during_history_after_new_config_subfield", 1)
+		}
+		nSub = ns
 	}
 
 	// The flattened fields, interpreted through the case.
@@ -565,6 +641,23 @@ func c09Check(c c09Case) *kit.Fail {
 		for k := range sim.cfgRank {
 			if !seen[k] {
 				return kit.Failf("config-subfield-missing", "%q: no sub-field for file key %q", text, k)
+			}
+		}
+	}
+
+	// The sequences sorted during the history respect every claimed pair. (The
+	// order of two keys does not depend on when it is asked: first-observation
+	// ranks are facts of the past, and a field born later is missing in both.)
+	for _, ms := range mids {
+		for i := 0; i < len(ms.seq); i++ {
+			for j := i + 1; j < len(ms.seq); j++ {
+				if ms.seq[i] == ms.seq[j] {
+					continue
+				}
+				cmp, ok, fld, va, vb := c09Ref(flat, sim.distinct[byKey[ms.seq[i]]], sim.distinct[byKey[ms.seq[j]]])
+				if ok && cmp > 0 {
+					return kit.Failf("sort-"+c09Sig(fld, vb, va), "%q: SortKeys during the history (after result %d) puts %q before %q but field %s (order %q) has %q before %q", text, ms.after, ms.seq[i].String(), ms.seq[j].String(), fld.name, fld.order, vb, va)
+				}
 			}
 		}
 	}
@@ -734,7 +827,7 @@ func c09Pool(order string, fixed []kit.B, nameSafe bool) []string {
 // Spellings the num order cannot separate (equal value, NaNs, non-numbers).
 var c09NumClusters = [][]string{
 	{"1", "1.0", "1e0"}, {"1000", "1e3", "1E3", "1k"}, {"1e6", "1M", "1000k", "1MB"}, {"1024", "1Ki", "1KiB"},
-	{"1048576", "1Mi"}, {"1Ei", "1Zi", "2ZiB", "1Yi", "3YiB", "1Z", "1Y", "3YB", "1E", "1P", "1Pi", "1Ti"}, {"2k", "2kB"}, {"0.001", "1e-3"}, {"NaN", "nan"}, {"+Inf", "Inf"}, {"abc", "x", "foo", "zed", "Q"},
+	{"1048576", "1Mi"}, {"1Ei", "1Zi", "2ZiB", "1Yi", "3YiB", "1Z", "1Y", "3YB", "1E", "1P", "1Pi", "1Ti"}, {"2k", "2kB"}, {"0.001", "1e-3"}, {"NaN", "nan"}, {"+Inf", "Inf"}, {"abc", "x", "foo", "zed", "Q"}, {".", "..", "file.go", "a.b.c", "v.", "abc"},
 	{"9", "10", "100"}, {"-1", "-2.5", "-Inf"},
 }
 
@@ -977,7 +1070,52 @@ func c09Gen(r *kit.Rand, i int) c09Case {
 		}
 		c.Stream = append(c.Stream, res)
 	}
+	if i%4 != 0 {
+		c.Inter = r.Range(2, 8)
+	}
 	return c
+}
+
+// c09GenInter: every case sorts during the history.
+func c09GenInter(r *kit.Rand, i int) c09Case {
+	c := c09Gen(r, i)
+	if c.Inter == 0 {
+		c.Inter = 5
+	}
+	return c
+}
+
+// c09NonTrivialInter: the plain rule, sorts during the history, a field after
+// .config in the flattened order, and a .config key that is first seen after
+// at least a quarter of the history.
+func c09NonTrivialInter(c c09Case) bool {
+	if c.Inter < 2 || !c09NonTrivial(c) {
+		return false
+	}
+	ci := -1
+	for i, f := range c.Fields {
+		if string(f.Key) == ".config" {
+			ci = i
+		}
+	}
+	if ci < 0 || (ci == len(c.Fields)-1 && !c.WithUnit) {
+		return false
+	}
+	sc, _ := c09Sets(&c)
+	born := map[string]bool{}
+	for ri := range c.Stream {
+		for _, kv := range c.Stream[ri].Cfg {
+			k := string(kv.K)
+			if sc[k] || born[k] {
+				continue
+			}
+			born[k] = true
+			if ri >= len(c.Stream)/4 && ri > 0 {
+				return true
+			}
+		}
+	}
+	return false
 }
 
 func c09NonTrivial(c c09Case) bool {
@@ -1004,7 +1142,13 @@ func c09NonTrivial(c c09Case) bool {
 }
 
 func TestVerifC09(t *testing.T) {
-	kit.Run(t, "C09", kit.Class[c09Case]{
+	inter := kit.Class[c09Case]{
+		Name: "sorts-during-history", Quick: 4000, Thorough: 60000,
+		Gen: c09GenInter, Check: c09Check, NonTrivial: c09NonTrivialInter, MinNonTrivial: 400,
+		Rule: "same generator; every case calls SortKeys 2-8 times DURING the history on random subsets (30%/60%/all, sometimes with a duplicate) of the keys seen so far, each from two arrangements: permutation, adjacent elements by Key.Less at that moment, both arrangements identical, and (after the history) every claimed pair of the reference order; then the end-of-history checks as before; " +
+			"non-trivial = the plain rule, .config is projected and not the last flattened field, and a non-excluded file key is first seen after >= 1/4 of the history",
+	}
+	kit.Run(t, "C09", inter, kit.Class[c09Case]{
 		Name: "orders-x-histories", Quick: 9000, Thorough: 250000,
 		Gen: c09Gen, Check: c09Check, NonTrivial: c09NonTrivial, MinNonTrivial: 1200,
 		Rule: "one projection of 1-4 fields over {.config,.name,.fullname,/a,/b,k1,k2} with first/alpha/num/fixed orders (optionally ParseWithUnit), " +
